@@ -213,6 +213,19 @@ impl<T: Read + Seek> E57Reader<T> {
     }
 }
 
+#[cfg(e57_verif)]
+impl<T: Read + Seek> E57Reader<T> {
+    /// Verification hook: state of the page cache shared by all read operations.
+    pub fn verif_cache_state(&self) -> (u64, Option<u64>, Vec<u8>) {
+        self.reader.verif_state()
+    }
+
+    /// Verification hook: access to the underlying device.
+    pub fn verif_device(&mut self) -> &mut T {
+        self.reader.verif_device()
+    }
+}
+
 impl E57Reader<BufReader<File>> {
     /// Creates an E57 instance from a Path.
     pub fn from_file(path: impl AsRef<Path>) -> Result<Self> {
